@@ -22,6 +22,10 @@ HISTORY = [
     "ndx.pi + ndx.e",
     "b_ = ndx.asarray(np.zeros(3, dtype=np.float32)); b_[0] = ndx.pi; b_[1] = ndx.e; b_[2] = ndx.inf",     # library constants as update values
     "i_ = ndx.asarray(np.zeros(2, dtype=np.int64)); v_ = ndx.asarray(np.array([1.5, 2.5])); i_[...] = v_",
+    # scalar constants that compare equal in Python but are different values / dtypes
+    "ndx.asarray(np.float64(0.0)) + ndx.asarray(np.float32(0.0)); ndx.asarray(0.0) * 2",
+    "ndx.asarray(np.float64(-0.0)) + ndx.asarray(np.float32(-0.0)); ndx.asarray(-0.0) * 2",
+    "ndx.asarray(1) + ndx.asarray(True) + ndx.asarray(1.0); ndx.asarray(np.int32(1)) * ndx.asarray(np.uint8(1))",
 ]
 
 
@@ -47,6 +51,11 @@ def run(ctx):
              "out = nda.static_map(a, {1: 'x', 2: 'y', 5: 'z'}, default='?')", "out = nda.isin(s, ['x']) | nda.isin(s, ['y', 'z', 'w'])",
              "out = nda.static_map(s, {'k%d' % i: float(i) for i in range(12)}, default=-1.0)"]
     progs.append({"program": "out = a * ndx.pi + ndx.e", "inputs": {"a": {"dtype": "float64", "sig": ["N"]}}, "constants": {}})
+    # Python-equal scalar constants (signed zeros, 1 / True / 1.0) must be exported as written
+    for body in ("out = a * ndx.asarray(np.float64(-0.0))", "out = a * ndx.asarray(np.float64(0.0))", "out = [a * -0.0, a + ndx.asarray(-0.0)]",
+                 "out = [a * 0.0, ndx.asarray(np.float64(0.0)) - a]", "out = ndx.where(a > 0, ndx.asarray(np.float64(-0.0)), ndx.asarray(np.float64(0.0))) + a",
+                 "out = a + ndx.asarray(np.float64(1.0)) * ndx.asarray(True)"):
+        progs.append({"program": body, "inputs": {"a": {"dtype": "float64", "sig": ["N"]}}, "constants": {}})
     # reading a value (repr / to_numpy / ndim / shape) before an in-place update must not change what is exported later
     read_pairs = []
     for body, dt in [("k[0] = 10; out = ndx.where(m, k, k2)", "nint64"), ("k[-1] = 7; out = ndx.where(m, k, k2) + k", "nint64"),
